@@ -13,7 +13,6 @@ fn make_cs() -> ConstraintSystem<ToyF> {
     let _f0 = cs.fixed_column();
     let f1 = cs.fixed_column();
     let a = cs.advice_column();
-    let _s = cs.selector();
     cs.enable_equality(a);
     cs.enable_equality(f1);
     cs
@@ -52,9 +51,10 @@ fn run(k_max: u8, check_post: bool) {
 }
 
 #[kani::proof]
-#[kani::unwind(14)]
+#[kani::unwind(4)]
 #[kani::stub(std::fmt::format, crate::stubs::format_stub)]
 #[kani::stub(std::hash::RandomState::new, crate::stubs::random_state_new_stub)]
+#[kani::stub(midnight_proofs::poly::EvaluationDomain::new, crate::stubs::domain_new_stub)]
 fn vk_read_total_small_k() {
-    run(2, false)
+    run(5, false)
 }
